@@ -121,7 +121,9 @@ InitWith(c) ==
     /\ wres = [rc |-> -1, tmo |-> FALSE]
     /\ crashed = "none"
 
-Init == \E c \in [mode : Modes, qserial : QSerials, barrier : Barriers, gate : Gates] : InitWith(c)
+\* an earlier item on the queue only matters when the queue orders the block object after it
+Init == \E c \in [mode : Modes, qserial : QSerials, barrier : Barriers, gate : Gates] :
+            (c.gate => (c.qserial \/ c.barrier)) /\ InitWith(c)
 
 Go(t, l) == pc' = [pc EXCEPT ![t] = l]
 Set(t, r) == lv' = [lv EXCEPT ![t] = r]
